@@ -68,8 +68,8 @@ localised = {}
 for cfg, shard, a, b in problems:
     sig = f"kind=digest-mismatch build={cfg} shard={shard}"
     detail = {"configuration": cfg, "shard": shard, "default_digest": a, "configuration_digest": b}
-    # localise the first differing case (once per shard and configuration, at most 6 in total)
-    if ":" not in cfg and len(localised) < 6:
+    # localise the first differing case (once per shard and configuration, at most 3 in total)
+    if ":" not in cfg and len(localised) < 3:
         ta, tb = transcript("default", shard), transcript(cfg, shard)
         only_a = sorted(set(ta) - set(tb))[:3]
         only_b = sorted(set(tb) - set(ta))[:3]
